@@ -14,3 +14,11 @@ run C13-r1 C13 C14 C03
 run C16-r1 C16 C08 C07 C01
 run C19-r1 C19 C04 C05
 run C20-r1 C20 C09
+run C03-r2 C03 C04 C05 C12 C19
+run C08-r2 C08 C07 C10 C16
+run C10-r2 C10 C07 C03
+run C11-r2 C11 C06
+run C14-r2 C14 C04 C13
+run C15-r2 C15 C01 C02 C12
+run C17-r2 C17 C13
+run C18-r2 C18 C13
